@@ -95,6 +95,7 @@ CHECK = Check(
         "channel in both directions. Oracle: on partially reliable channels every delivery equals exactly one sent message, no "
         "duplicates, ordered channels deliver a subsequence; reliable channels: full C01 transcript + complete delivery; every "
         "probe is delivered; association stays connected; nothing escapes. Non-trivial = a FORWARD-TSN chunk was put on the wire."
+        " Family forward-tsn: 2-4 mostly ordered partially reliable channels, small messages spread over several RTOs while one direction loses 1/3-2/3 of its datagrams (lost / late FORWARD-TSN and SACK, abandonment on a second stream before the first FORWARD-TSN is acknowledged). Families yielding-send / bundling as in C01."
     ),
     families=[
         Family("sessions", run_session,
